@@ -54,11 +54,14 @@ Definition vnames_of (l : list vitem) : list string :=
 Definition vraises (l : list vitem) : bool :=
   existsb (fun i => match i with VRaise => true | _ => false end) l.
 
-(* Variables.handler *)
+(* Variables.handler: isinstance(node, (ID, Decl)) and node.name and isinstance(node.name, str) *)
 Definition vhandler (n : node) : list vitem :=
-  match str_name n with Some s => [VName s] | None => [] end.
+  if in_s (ncls n) VARS_HANDLER_CLASSES
+  then match str_name n with Some s => [VName s] | None => [] end
+  else [].
 
-(* SyntaxUtils.init_vars: None = raises (getattr on a node without that attribute) *)
+(* SyntaxUtils.init_vars; att(lst, attr) = [getattr(e, attr, None) ...]: a missing attribute is None and is
+   dropped by names().  (The option is kept for the shape of loop_guard_of: it is always Some.) *)
 Definition names_of (l : list node) : list string :=
   flat_map (fun e => if is_cls "ID" e || is_cls "Decl" e
                      then match attr e "name" with Some s => [s] | None => [] end else []) l.
@@ -71,11 +74,10 @@ Definition init_vars (init : option node) : option (list string * list string) :
   | Some n =>
     if is_cls "DeclList" n then
       let ds := kidl n "decls" in
-      if forallb (has_slot "init") ds then Some (names_of ds, names_of (att ds "init")) else None
+      Some (names_of ds, names_of (att ds "init"))
     else
       let exp := match slot n "exprs" with Some l => l | None => [n] end in
-      if forallb (has_slot "lvalue") exp && forallb (has_slot "rvalue") exp
-      then Some (names_of (att exp "lvalue"), names_of (att exp "rvalue")) else None
+      Some (names_of (att exp "lvalue"), names_of (att exp "rvalue"))
   end.
 
 Fixpoint dedup (l : list string) (seen : list string) : list string :=
@@ -354,19 +356,23 @@ Inductive litem := LLoop (p : path) | LRaise.
 Definition lpush (pre : path) (i : litem) : litem :=
   match i with LLoop p => LLoop (pre ++ p) | LRaise => LRaise end.
 
+(* FindLoops.handler: record the node if it is a While / DoWhile / For *)
+Definition fl_handler (c : string) : list litem :=
+  if in_s c FINDLOOPS_HANDLER_CLASSES then [LLoop []] else [].
+
 Definition fl_method (c : string) (self : node) (aks : list (string * list (ann (list litem)))) : list litem :=
   let rec1 s := match ak1 aks s with Some x => map (lpush [(s, 0)]) (ares x) | None => [] end in
-  if String.eqb c "DoWhile" then LLoop [] :: rec1 "stmt"
+  if String.eqb c "DoWhile" then fl_handler c ++ rec1 "stmt"
   else if String.eqb c "For" then
     match loop_compat self with
     | LcErr => [LRaise]
-    | LcYes _ => LLoop [] :: rec1 "stmt"
+    | LcYes _ => fl_handler c ++ rec1 "stmt"
     | LcNo => rec1 "stmt"
     end
   else if String.eqb c "FuncDef" then rec1 "body"
   else if String.eqb c "If" then rec1 "iftrue" ++ rec1 "iffalse"
   else if String.eqb c "Switch" then rec1 "stmt"
-  else if String.eqb c "While" then LLoop [] :: rec1 "stmt"
+  else if String.eqb c "While" then fl_handler c ++ rec1 "stmt"
   else [LRaise].
 
 Definition fl_iter (s : string) (xs : list (ann (list litem))) : list litem :=
@@ -384,7 +390,7 @@ Definition fl_step (c : string) (a : list (string * string)) (ks : list (string 
       end in
   if String.eqb c "FuncCall" then
     (if fcall_special self then [] else by_owner (resolve FINDLOOPS_METHODS c) [LRaise])
-  else by_owner (resolve FINDLOOPS_METHODS c) [LLoop []].     (* FindLoops.handler: record as a loop *)
+  else by_owner (resolve FINDLOOPS_METHODS c) (fl_handler c).    (* unlisted class: FindLoops.handler *)
 
 Definition fl_items (n : node) : list litem := walk fl_step n.
 Definition lraises (l : list litem) : bool := existsb (fun i => match i with LRaise => true | _ => false end) l.
@@ -401,7 +407,11 @@ Definition is_func (n : node) : bool :=
   is_cls "FuncDef" n && match kid1 n "body" with Some b => has_slot "block_items" b | None => false end.
 Definition is_loop (n : node) : bool :=
   (is_cls "While" n || is_cls "For" n || is_cls "DoWhile" n) &&
-  match kid1 n "stmt" with Some s => negb (is_cls "EmptyStatement" s) | None => false end.
+  match kid1 n "stmt" with
+  | Some s => negb (is_cls "EmptyStatement" s) &&
+              negb (is_cls "Compound" s && match kidl s "block_items" with [] => true | _ => false end)
+  | None => false
+  end.
 
 (* ------------------------------------------------------------------------- *)
 (* Analysis.syntax_check / LoopAnalysis.syntax_check / take_counts             *)
